@@ -95,17 +95,18 @@ prop("C05", "A failing run never damages source files", "other",
                         "U23": "If the input cannot be processed (...), rustfmt writes nothing for that crate root"})
 
 prop("C06", "Check mode is read-only and exact; all emit modes agree on the text", "other",
-     ["U05", {"unit": "U16", "exclude": r"^FilesWithBackupEmitter"}, {"unit": "U25", "only": r"--check|--backup"}],
+     ["U05", {"unit": "U16", "exclude": r"^FilesWithBackupEmitter"}, {"unit": "U25", "only": r"--check|--backup"}, {"unit": "U15", "only": r"^DiffEmitter"}],
      [{"clause": "--check exits 1 exactly when (no operational/parsing error and) a diff or check error was recorded, 0 otherwise (exit-code statement of `format`)", "status": "proved", "by": "U05 (Kani, complete)"},
       {"clause": "files mode touches a file only if its formatted text differs from the original, and then writes exactly the formatted text", "status": "bounded", "by": "U16"},
       {"clause": "stdout mode prints exactly the formatted text (plus the file-name header unless quiet) — the same &str the files emitter writes", "status": "bounded", "by": "U16"},
       {"clause": "--check / stdout / diff / json / checkstyle / modified-lines never modify a file: create_emitter selects a writing emitter only for EmitMode::Files; the other emitter files contain no file-system name", "status": "bounded", "by": "U16 + frame scan emitters_no_fs"},
       {"clause": "--check selects the (non-writing) diff emitter whatever --emit says", "status": "bounded", "by": "U25 (all flag combinations)"},
-      {"clause": "DiffEmitter's has_diff <=> original != formatted (ties --check's exit to what files mode would rewrite)", "status": "not_decided", "by": "-"},
+      {"clause": "DiffEmitter's has_diff <=> original != formatted, line terminators included (the very condition under which the files emitter writes): ties --check's exit status to what plain rustfmt would rewrite", "status": "bounded", "by": "U15 (real DiffEmitter over the text pairs incl. CRLF variants)"},
       {"clause": "modification times; text produced for stdin equals text for a path", "status": "not_decided", "by": "-"}],
      "Mixture: exit-code formula proved (Kani), emitter behaviour enumerated on the real text, frame scan for the non-writing emitters.",
      statement_clauses={"U05": "`--check` exits with 1 exactly when plain `rustfmt` would rewrite at least one of the files, and with 0 otherwise",
-                        "U16": "files mode touches a file only if its formatted text differs from what is on disk; the non-files emitters never modify a file"})
+                        "U16": "files mode touches a file only if its formatted text differs from what is on disk; the non-files emitters never modify a file",
+                        "U15": "`--check` exits with 1 exactly when plain `rustfmt` would rewrite at least one of the files", "U25": "`--check` ... never modify a file"})
 
 prop("C12", "Diff-based reports reconstruct the formatted text exactly", "exploration",
      ["U15"],
